@@ -1,5 +1,5 @@
 (* Lemmas about Model/Query.v (ParseURLData, QueryUnescape, splitting). *)
-From Chihaya Require Import Model.Query.
+From Chihaya Require Import Model.Query Model.HttpRender.
 From Coq Require Import ZifyBool ZifyNat Permutation.
 Open Scope Z_scope.
 
@@ -36,3 +36,336 @@ Qed.
 
 Lemma parse_url_data_client_err u e : parse_url_data u = inl e -> is_client_err e.
 Proof. intros H. apply parse_url_data_err in H as [->| ->]; eexists; reflexivity. Qed.
+
+(* ------------------------------------------------------------------------
+   splitting and joining *)
+Lemma split_on_nosep sep s : forall cur,
+  forallb (fun c => negb (sep c)) s = true -> split_on sep s cur = [rev cur ++ s].
+Proof.
+  induction s as [|a s IH]; intros cur H; cbn [split_on].
+  - rewrite app_nil_r. reflexivity.
+  - cbn [forallb] in H. apply andb_true_iff in H as [H1 H2].
+    destruct (sep a); [discriminate|]. rewrite IH by assumption. cbn [rev].
+    rewrite <- app_assoc. reflexivity.
+Qed.
+
+Lemma split_on_app sep s c rest : forall cur,
+  forallb (fun c => negb (sep c)) s = true -> sep c = true ->
+  split_on sep (s ++ c :: rest) cur = (rev cur ++ s) :: split_on sep rest [].
+Proof.
+  induction s as [|a s IH]; intros cur H Hc; cbn [split_on app].
+  - rewrite Hc, app_nil_r. reflexivity.
+  - cbn [forallb] in H. apply andb_true_iff in H as [H1 H2].
+    destruct (sep a); [discriminate|]. rewrite IH by assumption. cbn [rev].
+    rewrite <- app_assoc. reflexivity.
+Qed.
+
+Fixpoint join_sep (l : list (bytes * Z)) : bytes :=
+  match l with
+  | [] => []
+  | sc :: r => match r with [] => fst sc | _ => fst sc ++ snd sc :: join_sep r end
+  end.
+
+Lemma split_join_sep l :
+  Forall (fun sc => seg_ok (fst sc) = true /\ is_amp_semi (snd sc) = true) l ->
+  split_on is_amp_semi (join_sep l) [] = match l with [] => [[]] | _ => map fst l end.
+Proof.
+  induction l as [|[s c] r IH]; intros H; [reflexivity|].
+  inversion H as [|? ? [H1 H2] Hr]; subst. cbn [fst snd] in *.
+  destruct r as [|sc2 r'].
+  - cbn [join_sep fst map]. rewrite split_on_nosep by exact H1. reflexivity.
+  - change (join_sep ((s, c) :: sc2 :: r')) with (s ++ c :: join_sep (sc2 :: r')).
+    rewrite split_on_app by assumption. rewrite (IH Hr). reflexivity.
+Qed.
+
+Lemma join_amp_sep segs : join_amp segs = join_sep (map (fun s => (s, 38)) segs).
+Proof.
+  induction segs as [|s r IH]; [reflexivity|]. destruct r as [|s2 r']; [reflexivity|].
+  change (join_amp (s :: s2 :: r')) with (s ++ 38 :: join_amp (s2 :: r')). rewrite IH. reflexivity.
+Qed.
+
+Lemma render_query_sep ps :
+  render_query ps = join_sep (map (fun p => (render_seg p, if sp_semi p then 59 else 38)) ps).
+Proof.
+  induction ps as [|p r IH]; [reflexivity|]. destruct r as [|p2 r']; [reflexivity|].
+  change (render_query (p :: p2 :: r'))
+    with (render_seg p ++ (if sp_semi p then 59 else 38) :: render_query (p2 :: r')).
+  rewrite IH. reflexivity.
+Qed.
+
+Lemma cut_at_app c a b : forallb (fun x => negb (x =? c)) a = true -> cut_at c (a ++ c :: b) = (a, Some b).
+Proof.
+  induction a as [|x a IH]; intros H; cbn [cut_at app].
+  - rewrite Z.eqb_refl. reflexivity.
+  - cbn [forallb] in H. apply andb_true_iff in H as [H1 H2].
+    destruct (x =? c); [discriminate|]. rewrite IH by assumption. reflexivity.
+Qed.
+Lemma cut_at_none c a : forallb (fun x => negb (x =? c)) a = true -> cut_at c a = (a, None).
+Proof.
+  induction a as [|x a IH]; intros H; cbn [cut_at]; [reflexivity|].
+  cbn [forallb] in H. apply andb_true_iff in H as [H1 H2].
+  destruct (x =? c); [discriminate|]. rewrite IH by assumption. reflexivity.
+Qed.
+
+(* ------------------------------------------------------------------------
+   the parser in terms of the meaning of its segments *)
+Definition apply_sem (s : segsem) (acc : list (bytes * bytes) * list bytes)
+  : err + (list (bytes * bytes) * list bytes) :=
+  match s with
+  | SSkip => inr acc
+  | SErr e => inl e
+  | SIH v => inr (fst acc, snd acc ++ [v])
+  | SP k v => inr ((k, v) :: fst acc, snd acc)
+  end.
+
+Lemma parse_segment_sem seg acc : parse_segment seg acc = apply_sem (seg_sem seg) acc.
+Proof.
+  unfold parse_segment, seg_sem. destruct seg as [|c s]; [reflexivity|].
+  destruct (cut_at 61 (c :: s)) as [k v].
+  destruct (unescape k) as [k'|]; [|reflexivity].
+  destruct (unescape _) as [v'|]; [|reflexivity].
+  destruct (bytes_eqb k' info_hash_key); [|reflexivity].
+  destruct (Nat.eqb _ 20); reflexivity.
+Qed.
+
+Definition sem_pairs (l : list segsem) : list (bytes * bytes) :=
+  flat_map (fun s => match s with SP k v => [(k, v)] | _ => [] end) l.
+Definition sem_ihs (l : list segsem) : list bytes :=
+  flat_map (fun s => match s with SIH v => [v] | _ => [] end) l.
+Fixpoint first_err (l : list segsem) : option err :=
+  match l with
+  | [] => None
+  | SErr e :: _ => Some e
+  | _ :: r => first_err r
+  end.
+
+Lemma parse_segments_sems segs : forall ps ihs,
+  parse_segments segs (ps, ihs) =
+  match first_err (map seg_sem segs) with
+  | Some e => inl e
+  | None => inr (rev (sem_pairs (map seg_sem segs)) ++ ps, ihs ++ sem_ihs (map seg_sem segs))
+  end.
+Proof.
+  induction segs as [|s r IH]; intros ps ihs; cbn [parse_segments map].
+  - cbn. rewrite app_nil_r. reflexivity.
+  - rewrite parse_segment_sem. destruct (seg_sem s) as [|e|v|k v]; cbn [apply_sem first_err fst snd].
+    + rewrite IH. reflexivity.
+    + reflexivity.
+    + rewrite IH. destruct (first_err _); [reflexivity|].
+      cbn [sem_pairs sem_ihs flat_map app]. rewrite <- app_assoc. reflexivity.
+    + rewrite IH. destruct (first_err _); [reflexivity|].
+      cbn [sem_pairs sem_ihs flat_map app rev]. rewrite <- app_assoc. reflexivity.
+Qed.
+
+Definition mk_q path query (sems : list segsem) : qparams :=
+  {| q_path := path; q_query := query; q_params := rev (sem_pairs sems); q_ihs := sem_ihs sems |}.
+
+(* ParseURLData on  path ? seg sep seg sep ... *)
+Lemma parse_url_data_segs path l :
+  no_qmark path = true ->
+  Forall (fun sc => seg_ok (fst sc) = true /\ is_amp_semi (snd sc) = true) l ->
+  parse_url_data (path ++ 63 :: join_sep l) =
+  let sems := map seg_sem (map fst l) in
+  match first_err sems with
+  | Some e => inl e
+  | None => inr (mk_q path (join_sep l) sems)
+  end.
+Proof.
+  intros Hp Hl. unfold parse_url_data. rewrite cut_at_app by exact Hp.
+  unfold parse_query. rewrite split_join_sep by exact Hl.
+  destruct l as [|sc r].
+  - cbn. reflexivity.
+  - rewrite parse_segments_sems. cbv zeta. destruct (first_err _); [reflexivity|].
+    rewrite app_nil_r. reflexivity.
+Qed.
+
+(* ------------------------------------------------------------------------
+   association-list lookups *)
+Lemma q_lookup_app k a b :
+  q_lookup k (a ++ b) = match q_lookup k a with Some v => Some v | None => q_lookup k b end.
+Proof.
+  induction a as [|[k' v] a IH]; cbn [q_lookup app]; [reflexivity|].
+  destruct (bytes_eqb k k'); [reflexivity|exact IH].
+Qed.
+
+Lemma q_lookup_some_in k ps v : q_lookup k ps = Some v -> In (k, v) ps.
+Proof.
+  induction ps as [|[k' v'] ps IH]; cbn [q_lookup]; [discriminate|].
+  destruct (bytes_eqb k k') eqn:E.
+  - intros H; injection H as <-. apply bytes_eqb_eq in E. subst. left; reflexivity.
+  - intros H. right. apply IH, H.
+Qed.
+
+Lemma q_lookup_in k v ps : In (k, v) ps -> q_lookup k ps <> None.
+Proof.
+  induction ps as [|[k' v'] ps IH]; cbn [q_lookup In]; [tauto|].
+  intros [H|H].
+  - injection H as -> ->. rewrite bytes_eqb_refl. discriminate.
+  - destruct (bytes_eqb k k'); [discriminate|apply IH, H].
+Qed.
+
+Lemma q_lookup_in_unique k v ps :
+  In (k, v) ps -> (forall v', In (k, v') ps -> v' = v) -> q_lookup k ps = Some v.
+Proof.
+  intros Hin Hu. destruct (q_lookup k ps) as [w|] eqn:E.
+  - apply q_lookup_some_in in E. f_equal. apply Hu, E.
+  - exfalso. eapply q_lookup_in; eauto.
+Qed.
+
+Lemma q_lookup_none_notin k ps : q_lookup k ps = None -> forall v, ~ In (k, v) ps.
+Proof. intros H v Hin. eapply q_lookup_in; eauto. Qed.
+
+Lemma q_lookup_perm k ps ps' :
+  Permutation ps ps' ->
+  (forall v1 v2, In (k, v1) ps -> In (k, v2) ps -> v1 = v2) ->
+  q_lookup k ps = q_lookup k ps'.
+Proof.
+  intros P U. destruct (q_lookup k ps) as [v|] eqn:E.
+  - apply q_lookup_some_in in E. symmetry. apply q_lookup_in_unique.
+    + eapply Permutation_in; eauto.
+    + intros v' H'. apply (U v' v); [|exact E]. eapply Permutation_in; [apply Permutation_sym|]; eauto.
+  - destruct (q_lookup k ps') as [v|] eqn:E'; [|reflexivity].
+    apply q_lookup_some_in in E'. exfalso. eapply q_lookup_none_notin; [exact E|].
+    eapply Permutation_in; [apply Permutation_sym|]; eauto.
+Qed.
+
+(* an older duplicate is invisible *)
+Lemma q_lookup_shadow k0 v0 a b :
+  (exists v', In (k0, v') a) -> forall k, q_lookup k (a ++ (k0, v0) :: b) = q_lookup k (a ++ b).
+Proof.
+  intros [v' Hin] k. rewrite !q_lookup_app. destruct (q_lookup k a) as [w|] eqn:E; [reflexivity|].
+  cbn [q_lookup]. destruct (bytes_eqb k k0) eqn:EK; [|reflexivity].
+  apply bytes_eqb_eq in EK. subst. exfalso. eapply q_lookup_in; eauto.
+Qed.
+
+(* ------------------------------------------------------------------------
+   escaping styles: QueryUnescape inverts every well-formed styled string *)
+Lemma nibble_cases d : 0 <= d < 16 ->
+  d = 0 \/ d = 1 \/ d = 2 \/ d = 3 \/ d = 4 \/ d = 5 \/ d = 6 \/ d = 7 \/
+  d = 8 \/ d = 9 \/ d = 10 \/ d = 11 \/ d = 12 \/ d = 13 \/ d = 14 \/ d = 15.
+Proof. lia. Qed.
+
+Definition char_ok (x : Z) : bool := negb (x =? 61) && negb (is_amp_semi x).
+
+Lemma hex_digit_facts u d : 0 <= d < 16 ->
+  is_hex (hex_digit u d) = true /\ unhex (hex_digit u d) = d /\ char_ok (hex_digit u d) = true.
+Proof.
+  intros H. apply nibble_cases in H.
+  repeat (destruct H as [->|H]; [destruct u; repeat split; reflexivity|]).
+  subst. destruct u; repeat split; reflexivity.
+Qed.
+
+Lemma byte_nibbles b : 0 <= b < 256 -> 0 <= b / 16 < 16 /\ 0 <= b mod 16 < 16 /\ b / 16 * 16 + b mod 16 = b.
+Proof.
+  intros H. pose proof (Z.div_mod b 16 ltac:(lia)). pose proof (Z.mod_pos_bound b 16 ltac:(lia)).
+  repeat split; try lia.
+Qed.
+
+Lemma unescape_render s : sbytes_ok s = true -> unescape (render_str s) = Some (plain s).
+Proof.
+  induction s as [|[b e] s IH]; intros H; [reflexivity|].
+  cbn [sbytes_ok forallb fst snd] in H. apply andb_true_iff in H as [Hb Hs].
+  specialize (IH Hs). unfold esc_ok in Hb. apply andb_true_iff in Hb as [Hbyte He].
+  apply is_byte_iff in Hbyte.
+  cbn [render_str flat_map plain map fst snd]. fold (render_str s). fold (plain s).
+  destruct e as [|u1 u2|]; cbn [render_byte app].
+  - unfold reserved in He. cbn [unescape].
+    destruct (b =? 37) eqn:E1; [cbn in He; discriminate|].
+    destruct (b =? 43) eqn:E2; [cbn in He; discriminate|].
+    rewrite IH. reflexivity.
+  - destruct (byte_nibbles b Hbyte) as (N1 & N2 & N3).
+    destruct (hex_digit_facts u1 _ N1) as (A1 & A2 & _).
+    destruct (hex_digit_facts u2 _ N2) as (B1 & B2 & _).
+    cbn [unescape]. rewrite Z.eqb_refl, A1, B1. cbn [andb]. rewrite IH, A2, B2, N3. reflexivity.
+  - cbn [unescape]. change (43 =? 37) with false. change (43 =? 43) with true. cbv iota.
+    rewrite IH. cbn [option_map]. f_equal. f_equal. lia.
+Qed.
+
+Lemma render_str_chars s : sbytes_ok s = true -> forallb char_ok (render_str s) = true.
+Proof.
+  induction s as [|[b e] s IH]; intros H; [reflexivity|].
+  cbn [sbytes_ok forallb fst snd] in H. apply andb_true_iff in H as [Hb Hs].
+  specialize (IH Hs). unfold esc_ok in Hb. apply andb_true_iff in Hb as [Hbyte He].
+  apply is_byte_iff in Hbyte.
+  cbn [render_str flat_map fst snd]. fold (render_str s). rewrite forallb_app, IH, andb_true_r.
+  destruct e as [|u1 u2|]; cbn [render_byte forallb].
+  - unfold reserved in He. unfold char_ok, is_amp_semi. lia.
+  - destruct (byte_nibbles b Hbyte) as (N1 & N2 & N3).
+    destruct (hex_digit_facts u1 _ N1) as (_ & _ & A).
+    destruct (hex_digit_facts u2 _ N2) as (_ & _ & B).
+    rewrite A, B. reflexivity.
+  - reflexivity.
+Qed.
+
+Lemma forallb_impl {A} (f g : A -> bool) l :
+  (forall x, f x = true -> g x = true) -> forallb f l = true -> forallb g l = true.
+Proof.
+  intros I. induction l as [|x l IH]; cbn [forallb]; [reflexivity|].
+  intros H. apply andb_true_iff in H as [H1 H2]. rewrite (I x H1), (IH H2). reflexivity.
+Qed.
+
+Lemma render_str_no_eq s : sbytes_ok s = true -> forallb (fun x => negb (x =? 61)) (render_str s) = true.
+Proof.
+  intros H. eapply forallb_impl; [|apply render_str_chars, H].
+  intros x. unfold char_ok. intros Hx. apply andb_true_iff in Hx as [Hx _]. exact Hx.
+Qed.
+Lemma render_str_seg_ok s : sbytes_ok s = true -> seg_ok (render_str s) = true.
+Proof.
+  intros H. unfold seg_ok. eapply forallb_impl; [|apply render_str_chars, H].
+  intros x. unfold char_ok. intros Hx. apply andb_true_iff in Hx as [_ Hx]. exact Hx.
+Qed.
+
+Lemma render_str_nonempty s : s <> [] -> render_str s <> [].
+Proof.
+  destruct s as [|[b e] s]; [congruence|]. intros _. cbn [render_str flat_map fst snd].
+  destruct e; cbn [render_byte app]; discriminate.
+Qed.
+
+Lemma sparam_ok_parts p : sparam_ok p = true ->
+  sbytes_ok (sp_key p) = true /\ sbytes_ok (sp_val p) = true /\
+  (sp_bare p = true -> sp_val p = [] /\ sp_key p <> []).
+Proof.
+  unfold sparam_ok. intros H. apply andb_true_iff in H as [H H3]. apply andb_true_iff in H as [H1 H2].
+  split; [exact H1|]. split; [exact H2|]. intros B. rewrite B in H3. cbn [negb orb] in H3.
+  apply andb_true_iff in H3 as [H4 H5]. split.
+  - destruct (sp_val p); [reflexivity|discriminate].
+  - destruct (sp_key p); [discriminate|congruence].
+Qed.
+
+Lemma render_seg_ok p : sparam_ok p = true -> seg_ok (render_seg p) = true.
+Proof.
+  intros H. apply sparam_ok_parts in H as (H1 & H2 & _). unfold render_seg, seg_ok.
+  rewrite forallb_app. fold (seg_ok (render_str (sp_key p))). rewrite render_str_seg_ok by exact H1.
+  destruct (sp_bare p); [reflexivity|]. cbn [forallb andb].
+  fold (seg_ok (render_str (sp_val p))). rewrite render_str_seg_ok by exact H2. reflexivity.
+Qed.
+
+(* the meaning of a parameter: decided by its decoded key and value alone *)
+Definition sem_of_pair (kv : bytes * bytes) : segsem :=
+  match classify kv with
+  | LIH v => if Nat.eqb (length v) 20 then SIH v else SErr ErrInvalidInfohash
+  | LP k v => SP k v
+  end.
+
+Lemma seg_sem_render p : sparam_ok p = true -> seg_sem (render_seg p) = sem_of_pair (logical p).
+Proof.
+  intros H. destruct (sparam_ok_parts p H) as (H1 & H2 & H3).
+  assert (NE : render_seg p <> []).
+  { unfold render_seg. destruct (sp_bare p) eqn:B.
+    - rewrite app_nil_r. apply render_str_nonempty. apply H3; reflexivity.
+    - intros E. apply app_eq_nil in E as [_ E]. discriminate. }
+  assert (CUT : cut_at 61 (render_seg p) =
+                (render_str (sp_key p), if sp_bare p then None else Some (render_str (sp_val p)))).
+  { unfold render_seg. destruct (sp_bare p).
+    - rewrite app_nil_r. apply cut_at_none, render_str_no_eq, H1.
+    - apply cut_at_app, render_str_no_eq, H1. }
+  unfold seg_sem. destruct (render_seg p) as [|c r] eqn:ER; [congruence|]. rewrite CUT.
+  rewrite unescape_render by exact H1.
+  assert (UV : unescape (match (if sp_bare p then None else Some (render_str (sp_val p))) with
+                         | Some v => v | None => [] end) = Some (plain (sp_val p))).
+  { destruct (sp_bare p) eqn:B.
+    - destruct (H3 eq_refl) as [-> _]. reflexivity.
+    - apply unescape_render, H2. }
+  rewrite UV. unfold sem_of_pair, classify, logical. cbn [fst snd].
+  destruct (bytes_eqb (plain (sp_key p)) info_hash_key); reflexivity.
+Qed.
